@@ -107,7 +107,8 @@ def mock_runs(ctx):
     n = 10 if ctx.tier == 'quick' else 60
     stats = {'runs': 0, 'limits': {}}
     for i in range(n):
-        w, g, b, bdir = make_backup(ctx, 500 + i, random.Random(ctx.seed * 131 + i))
+        # (the first backup is longer than one 4 MiB block of Dropbox's hasher, which takes a write only up to the block's end)
+        w, g, b, bdir = make_backup(ctx, 500 + i, random.Random(ctx.seed * 131 + i), big=4 * 1024 * 1024 + 300000 if i == 0 else 0)
         home = uc.make_gnupghome(w.base)
         try:
             pp = PASSPHRASES[i % len(PASSPHRASES)]
@@ -125,8 +126,10 @@ def mock_runs(ctx):
                 # limits that fall exactly between two blocks read from gpg (blocks start at 16 + k*8192 or at k*8192,
                 # depending on how the first read of gpg's output went): the open body is exactly full when more arrives
                 limits += [l for l in (16, 8192, 8208, 16384, 16400) if l < total and (l > 16 or total < 20000)]
+            if i == 0:
+                limits = [None, 1024 * 1024, rng.choice([total - 1, 4 * 1024 * 1024, 4 * 1024 * 1024 + 16])]
             for mx in limits:
-                chunked = rng.random() < 0.5
+                chunked = rng.random() < 0.5 or i == 0
                 o = first if mx is None and not chunked else core.run_lines(
                     core.harness_exe(ctx), [core.req('upbackup', {'backup_path': bdir, 'group': g, 'name': b, 'passphrase': pp, 'max': mx, 'chunked': chunked, 'out': out})],
                     env=dict(os.environ, GNUPGHOME=home), timeout=300)[0]
@@ -239,11 +242,11 @@ def e2e(ctx):
     plans.append(('dropbox', PASSPHRASES[3], 'divisor'))
     # the archiver fails part-way through a backup's data file: whatever then exists under a final name must still be
     # the whole backup
-    plans += [(prov, PASSPHRASES[1], 'readfault') for prov in (uc.PROVIDERS if ctx.tier == 'thorough' else ['yandex'])]
+    plans += [(prov, PASSPHRASES[1], 'readfault') for prov in uc.PROVIDERS]
     # the provider stores something else than what was sent (and reports its checksum honestly)
-    plans += [(prov, PASSPHRASES[2], 'corrupt') for prov in (uc.PROVIDERS if ctx.tier == 'thorough' else ['google'])]
+    plans += [(prov, PASSPHRASES[2], 'corrupt') for prov in uc.PROVIDERS]
     # gpg itself fails after having produced the beginning of the ciphertext
-    plans += [(prov, PASSPHRASES[0], 'gpgfails') for prov in (uc.PROVIDERS if ctx.tier == 'thorough' else ['google'])]
+    plans += [(prov, PASSPHRASES[0], 'gpgfails') for prov in uc.PROVIDERS]
     if ctx.tier == 'thorough':
         plans.append(('dropbox', 'big', 'big'))
     for idx, (prov, pp, special) in enumerate(plans):
